@@ -46,6 +46,12 @@ class Interval(Module):
         self.register_buffer("lower_bound", lower_bound)
         self.register_buffer("upper_bound", upper_bound)
 
+        # The default inverse belongs to the default transform: when another transform is given without its inverse,
+        # the inverse is looked up in the transform registry (and must be specified for an unregistered transform)
+        for default_transform, default_inv_transform in ((sigmoid, inv_sigmoid), (softplus, inv_softplus)):
+            if inv_transform is default_inv_transform and transform is not None and transform is not default_transform:
+                inv_transform = None
+
         self._transform = transform
         self._inv_transform = inv_transform
 
